@@ -153,6 +153,12 @@ def _make_op(src):
         o = gen.as_op(w, kwargs={"return_only_persistent": rng.random() < 0.5})
         o["sid"] = "dag:%d" % src[1]
         return o, False
+    if src[0] == "tseries":
+        from . import c33
+
+        o = c33.timeseries_workload(random.Random(src[1]))
+        o["sid"] = "tseries:%d" % src[1]
+        return o, False
     if src[0] == "sample":
         # rows homogeneous except for a few odd ones (see c33.sampling_workload): anything the engine decides
         # from a bounded probe of a stored table depends on the table's physical order
@@ -315,7 +321,8 @@ def run(ctx):
     items += [("corpus", e) for e in rng.sample(cps, min(n_corpus, len(cps)))]
     bigs = [("big", rng.randrange(1 << 30), rng.choice([5000, 20000, 150000] if quick else [20000, 100000, 150000, 300000])) for _ in range(6 if quick else 120)]
     rng.shuffle(items)
-    items = bigs + [("sample", rng.randrange(1 << 30)) for _ in range(4 if quick else 120)] + items
+    items = bigs + [("sample", rng.randrange(1 << 30)) for _ in range(4 if quick else 120)] + \
+        [("tseries", rng.randrange(1 << 30)) for _ in range(12 if quick else 600)] + items
     size = 5
     tasks = [{"items": items[i:i + size]} for i in range(0, len(items), size)]
     # hash-seed differential (fresh interpreters): a few batches
